@@ -225,3 +225,15 @@ pub fn lemma_header_entry_round_trip(blob: &IndexBlob) -> (r: IndexBlob)
 {
     HeaderEntry::from_blob(blob).into_blob(blob.location.offset)
 }
+
+// ---- Actor::new pipeline: the id under which a pack is written is the SHA-256 of exactly the bytes written ----
+pub uninterp spec fn SHA256(d: Seq<u8>) -> u64;
+impl BytesList {
+    // file.clone().reader(): a reader over the same bytes
+    #[verifier::external_body]
+    pub fn vclone_reader(&self) -> (r: BytesList) ensures r.all@ == self.all@, { unimplemented!() }
+}
+// crypto::hasher::hash_reader(reader).expect(..): SHA-256 of everything the reader yields (reading from memory cannot fail)
+#[verifier::external_body]
+pub fn vhash_reader(r: BytesList) -> (id: Id) ensures id.0 == SHA256(r.all@), { unimplemented!() }
+pub fn vpackid_from_id(id: Id) -> (r: PackId) ensures r.0 == id.0, { PackId(id.0) }
